@@ -1,265 +1,41 @@
 /-
-C05 helper lemmas, part 3: from the per-iteration protection guarantee to the physical-device
-statement (`physRepl … heldAfter ≥ min desired (physRepl … heldBefore)`) for layouts whose mounts
-are pairwise `Apart`.
+C05 helper lemmas, part 4: from the guarantee at the end of the class loop to the physical-device
+statements — trash safety and the soundness of the under-replication test.
 -/
-import ArvVerif.Proofs.C05Multi
+import ArvVerif.Proofs.C05Inv
 namespace ArvVerif.C05
-
-/-! ### slot lists with the same cores -/
-
-@[simp] theorem core_markWant (w : List Nat) (s : Slot) : core (markWant w s) = core s := by
-  unfold core; simp
-
-@[simp] theorem core_finalSlot (b : BState) (s : Slot) : core (finalSlot b s) = core s := by
-  unfold core; simp
-
-def CoreRel (l₁ l₂ : List Slot) : Prop := (l₁.map core).Perm (l₂.map core)
-
-theorem CoreRel.refl (l : List Slot) : CoreRel l l := List.Perm.refl _
-theorem CoreRel.trans {a b c : List Slot} (h₁ : CoreRel a b) (h₂ : CoreRel b c) : CoreRel a c := List.Perm.trans h₁ h₂
-theorem CoreRel.symm {a b : List Slot} (h : CoreRel a b) : CoreRel b a := List.Perm.symm h
-
-theorem coreRel_of_perm {l₁ l₂ : List Slot} (h : l₁.Perm l₂) : CoreRel l₁ l₂ := h.map core
-
-theorem coreRel_map_markWant (w : List Nat) (l : List Slot) : CoreRel (l.map (markWant w)) l := by
-  unfold CoreRel
-  rw [List.map_map]
-  have : (core ∘ markWant w) = core := by funext s; simp
-  rw [this]
-
-theorem coreRel_finalWant (b : BState) : CoreRel (finalWant b) b.slots := by
-  unfold CoreRel finalWant
-  rw [List.map_map]
-  have : (core ∘ finalSlot b) = core := by funext s; simp
-  rw [this]
-
-theorem classIter_coreRel (env : Env) (c : Class) {sorted : List Slot} {b : BState}
-    (h : sorted.Perm b.slots) : CoreRel (classIter env c sorted b).slots b.slots := by
-  rw [classIter_slots]
-  exact (coreRel_map_markWant _ _).trans (coreRel_of_perm h)
-
-theorem runClasses_coreRel (env : Env) (sorter : Class → List Slot → List Slot) :
-    ∀ (cs : List Class) (b : BState), RunOK env sorter cs b → CoreRel (runClasses env sorter cs b).slots b.slots := by
-  intro cs
-  induction cs with
-  | nil => intro b _; exact CoreRel.refl _
-  | cons c cs ih =>
-    intro b hok
-    unfold runClasses
-    unfold RunOK at hok
-    by_cases hd : env.desired c = 0
-    · simp only [hd, if_true] at hok ⊢; exact ih b hok
-    · simp only [hd, if_false] at hok ⊢
-      exact (ih _ hok.2).trans (classIter_coreRel env c hok.1.1)
-
-theorem coreRel_mnt_perm {l₁ l₂ : List Slot} (h : CoreRel l₁ l₂) : (l₁.map (·.mnt)).Perm (l₂.map (·.mnt)) := by
-  have := h.map Prod.fst
-  simpa [List.map_map, Function.comp_def, core] using this
-
-/-- sums of terms that look only at the core are the same on core-related lists -/
-theorem ssum_coreRel (f : Mount × Option Int → Nat) {l₁ l₂ : List Slot} (h : CoreRel l₁ l₂) :
-    ssum (fun s => f (core s)) l₁ = ssum (fun s => f (core s)) l₂ := by
-  have := (h.map f).sum_nat
-  simpa [ssum, List.map_map, Function.comp_def] using this
-
-def protC (c : Class) (u : List Int) (p : Mount × Option Int) : Nat :=
-  match p.2 with
-  | some t => if inClass c p.1 && u.contains t then p.1.repl else 0
-  | none => 0
-
-theorem protTerm_eq (c : Class) (u : List Int) : protTerm c u = fun s => protC c u (core s) := rfl
-
-theorem protSum_coreRel (c : Class) (u : List Int) {l₁ l₂ : List Slot} (h : CoreRel l₁ l₂) :
-    ssum (protTerm c u) l₁ = ssum (protTerm c u) l₂ := by
-  rw [protTerm_eq]; exact ssum_coreRel _ h
-
-theorem haveSum_coreRel (c : Class) {l₁ l₂ : List Slot} (h : CoreRel l₁ l₂) :
-    ssum (haveTerm c) l₁ = ssum (haveTerm c) l₂ :=
-  ssum_coreRel (fun p => if p.2.isSome && inClass c p.1 then p.1.repl else 0) h
-
-theorem allProt_coreRel (c : Class) (u : List Int) {l₁ l₂ : List Slot} (h : CoreRel l₁ l₂)
-    (ha : AllProt c u l₁) : AllProt c u l₂ := by
-  intro s hs hc t ht
-  have : core s ∈ l₁.map core := h.mem_iff.2 (List.mem_map.2 ⟨s, hs, rfl⟩)
-  obtain ⟨s', hs', e⟩ := List.mem_map.1 this
-  have e1 : s'.mnt = s.mnt := congrArg Prod.fst e
-  have e2 : s'.repl = s.repl := congrArg Prod.snd e
-  exact ha s' hs' (by rw [e1]; exact hc) t (by rw [e2]; exact ht)
-
-theorem allProt_mono (c : Class) {u u' : List Int} (h : ∀ t ∈ u, t ∈ u') {l : List Slot} (ha : AllProt c u l) :
-    AllProt c u' l := fun s hs hc t ht => h t (ha s hs hc t ht)
-
-/-- the protection guarantee of class `c` at some point of the run -/
-def Prot (env : Env) (c : Class) (u : List Int) (l : List Slot) : Prop :=
-  env.desired c ≤ ssum (protTerm c u) l ∨ AllProt c u l
-
-theorem Prot.transport {env : Env} {c : Class} {u u' : List Int} {l l' : List Slot}
-    (hp : Prot env c u l) (hu : ∀ t ∈ u, t ∈ u') (hl : CoreRel l l') : Prot env c u' l' := by
-  rcases hp with h | h
-  · left
-    have h1 : ssum (protTerm c u) l ≤ ssum (protTerm c u') l := ssum_le _ _ _ (fun s _ => protTerm_mono c hu s)
-    rw [protSum_coreRel c u' hl] at h1
-    omega
-  · right
-    exact allProt_coreRel c u' hl (allProt_mono c hu h)
-
-theorem apart_pairwise_of_perm {l₁ l₂ : List Mount} (h : l₁.Perm l₂) (hp : l₂.Pairwise Apart) : l₁.Pairwise Apart :=
-  (h.pairwise_iff (fun {_ _} hab => Apart.symm hab)).2 hp
-
-/-- If a condition `G` on the slot list (stable under reordering and `want` updates) makes every
-iteration for `c` protect the class, then every class of the loop with desired > 0 ends up
-protected. -/
-theorem runClasses_prot_of (env : Env) (sorter : Class → List Slot → List Slot) (c : Class)
-    (G : List Slot → Prop) (hG : ∀ l l', CoreRel l l' → G l' → G l)
-    (hiter : ∀ (S : List Slot) (b : BState), S.Pairwise (fun a b => less env c b a = false) → G S →
-      Prot env c (classIter env c S b).utd S) :
-    ∀ (cs : List Class) (b : BState), RunOK env sorter cs b → G b.slots →
-      c ∈ cs → env.desired c ≠ 0 →
-      Prot env c (runClasses env sorter cs b).utd (runClasses env sorter cs b).slots := by
-  intro cs
-  induction cs with
-  | nil => intro b _ _ hm; cases hm
-  | cons c0 cs ih =>
-    intro b hok hg hm hd
-    unfold RunOK at hok
-    by_cases hd0 : env.desired c0 = 0
-    · have hrun : runClasses env sorter (c0 :: cs) b = runClasses env sorter cs b := by
-        conv => lhs; unfold runClasses
-        simp [hd0]
-      simp only [hd0, if_true] at hok
-      rw [hrun]
-      rcases List.mem_cons.1 hm with rfl | hm'
-      · exact absurd hd0 hd
-      · exact ih b hok hg hm' hd
-    · have hrun : runClasses env sorter (c0 :: cs) b =
-          runClasses env sorter cs (classIter env c0 (sorter c0 b.slots) b) := by
-        conv => lhs; unfold runClasses
-        simp [hd0]
-      simp only [hd0, if_false] at hok
-      rw [hrun]
-      have hS := hok.1
-      have hgS : G (sorter c0 b.slots) := hG _ _ (coreRel_of_perm hS.1) hg
-      have hg1 : G (classIter env c0 (sorter c0 b.slots) b).slots := hG _ _ (classIter_coreRel env c0 hS.1) hg
-      rcases List.mem_cons.1 hm with rfl | hm'
-      · have h0 := hiter (sorter c b.slots) b hS.2 hgS
-        have hrel : CoreRel (sorter c b.slots)
-            (runClasses env sorter cs (classIter env c (sorter c b.slots) b)).slots := by
-          have r1 := runClasses_coreRel env sorter cs _ hok.2
-          have r2 := classIter_coreRel env c (b := b) hS.1
-          exact ((r1.trans r2).trans (coreRel_of_perm hS.1).symm).symm
-        exact Prot.transport (env := env) h0 (fun t ht => runClasses_utd_mono env sorter cs _ t ht) hrel
-      · exact ih _ hok.2 hg1 hm' hd
-
-/-- one mount per server, no shared device -/
-theorem runClasses_prot (env : Env) (sorter : Class → List Slot → List Slot) (c : Class)
-    (cs : List Class) (b : BState) (hok : RunOK env sorter cs b) (hap : (b.slots.map (·.mnt)).Pairwise Apart)
-    (hc : c ∈ cs) (hd : env.desired c ≠ 0) :
-    Prot env c (runClasses env sorter cs b).utd (runClasses env sorter cs b).slots :=
-  runClasses_prot_of env sorter c (fun l => (l.map (·.mnt)).Pairwise Apart)
-    (fun _ _ hrel h => apart_pairwise_of_perm (coreRel_mnt_perm hrel) h)
-    (fun S b hs hg => classIter_protects env c S b hs hg) cs b hok hap hc hd
-
-theorem mem_of_coreRel {l l' : List Slot} (h : CoreRel l l') {s : Slot} (hs : s ∈ l) :
-    ∃ s' ∈ l', s'.mnt = s.mnt ∧ s'.repl = s.repl := by
-  have : core s ∈ l'.map core := h.mem_iff.1 (List.mem_map.2 ⟨s, hs, rfl⟩)
-  obtain ⟨s', hs', e⟩ := List.mem_map.1 this
-  exact ⟨s', hs', congrArg Prod.fst e, congrArg Prod.snd e⟩
-
-/-- distinct mounts, no shared device, every replica on an in-class mount -/
-theorem runClasses_prot_inclass (env : Env) (sorter : Class → List Slot → List Slot) (c : Class)
-    (cs : List Class) (b : BState) (hok : RunOK env sorter cs b)
-    (hid : IdsDistinct b.slots) (hdev : DevsDistinct b.slots)
-    (hall : ∀ s ∈ b.slots, s.repl.isSome = true → inClass c s.mnt = true)
-    (hc : c ∈ cs) (hd : env.desired c ≠ 0) :
-    Prot env c (runClasses env sorter cs b).utd (runClasses env sorter cs b).slots :=
-  runClasses_prot_of env sorter c
-    (fun l => IdsDistinct l ∧ DevsDistinct l ∧ ∀ s ∈ l, s.repl.isSome = true → inClass c s.mnt = true)
-    (fun l l' hrel h => by
-      refine ⟨?_, ?_, ?_⟩
-      · exact ((coreRel_mnt_perm hrel).pairwise_iff (fun {_ _} hab => fun e => hab e.symm)).2 h.1
-      · have hsym : ∀ {a b : Mount}, (a.dev = b.dev → a.dev = 0) → (b.dev = a.dev → b.dev = 0) :=
-          fun {a b} hab e => by rw [e]; exact hab e.symm
-        exact ((coreRel_mnt_perm hrel).pairwise_iff (R := fun (a b : Mount) => a.dev = b.dev → a.dev = 0) hsym).2 h.2.1
-      · intro s hs hr
-        obtain ⟨s', hs', e1, e2⟩ := mem_of_coreRel hrel hs
-        rw [← e1]; exact h.2.2 s' hs' (by rw [e2]; exact hr))
-    (fun S b _ hg => classIter_protects_inclass env c S b hg.1 hg.2.1 hg.2.2) cs b hok ⟨hid, hdev, hall⟩ hc hd
-
-/-- different mount objects that are not views of one device (servers may coincide) -/
-def DevApart (a b : Mount) : Prop := a.id ≠ b.id ∧ (a.dev = b.dev → a.dev = 0)
-
-theorem DevApart.symm {a b : Mount} (h : DevApart a b) : DevApart b a :=
-  ⟨fun e => h.1 e.symm, fun e => by rw [e]; exact h.2 e.symm⟩
-
-theorem Apart.toDev {a b : Mount} (h : Apart a b) : DevApart a b := ⟨h.1, h.2.2⟩
-
-theorem devApart_pairwise_of_perm {l₁ l₂ : List Mount} (h : l₁.Perm l₂) (hp : l₂.Pairwise DevApart) :
-    l₁.Pairwise DevApart :=
-  (h.pairwise_iff (fun {_ _} hab => DevApart.symm hab)).2 hp
-
-/-! ### the physical-device reading of a result -/
-
-theorem sameDevice_not_apart {a b : Mount} (h : sameDevice a b = true) : ¬ DevApart a b := by
-  intro hab
-  unfold sameDevice at h
-  by_cases h0 : a.dev = 0
-  · simp only [h0, if_true, beq_iff_eq] at h
-    exact hab.1 h
-  · simp only [h0, if_false, beq_iff_eq] at h
-    exact h0 (hab.2 h)
-
-theorem sameDevice_not_apart' {a b : Mount} (h : sameDevice a b = true) : ¬ DevApart b a :=
-  fun hba => sameDevice_not_apart h hba.symm
-
-theorem sameDevice_self (a : Mount) : sameDevice a a = true := by
-  unfold sameDevice; split <;> simp
-
-theorem distinctDevices_of_apart : ∀ (l : List Mount), l.Pairwise DevApart → distinctDevices l = l := by
-  intro l
-  induction l with
-  | nil => intro _; rfl
-  | cons a l ih =>
-    intro h
-    have h' := List.pairwise_cons.1 h
-    unfold distinctDevices
-    rw [ih h'.2]
-    have : l.any (sameDevice a) = false := by
-      rw [List.any_eq_false]
-      intro b hb hsd
-      exact sameDevice_not_apart hsd (h'.1 b hb)
-    simp [this]
-
-theorem sum_filter_map_eq_ssum (c : Class) (q : Slot → Bool) : ∀ (L : List Slot),
-    ((((L.filter q).map (·.mnt)).filter (inClass c)).map (·.repl)).sum =
-      ssum (fun s => if q s && inClass c s.mnt then s.mnt.repl else 0) L := by
-  intro L
-  induction L with
-  | nil => rfl
-  | cons a L ih =>
-    rw [ssum_cons, ← ih]
-    cases hq : q a
-    · simp [hq]
-    · cases hc : inClass c a.mnt
-      · simp [hq, hc]
-      · simp [hq, hc]
-
-/-- in-class replication that survives the trash list -/
-def keptTerm (env : Env) (reps : List Replica) (c : Class) (s : Slot) : Nat :=
-  if (s.repl.isSome && !(change env reps s).isTrash) && inClass c s.mnt then s.mnt.repl else 0
 
 section
 variable (env : Env) (reps : List Replica)
 
-theorem heldBefore_eq (F : List Slot) (b : BState) :
-    (Result.heldBefore { changes := F.map (fun s => (s, change env reps s)), final := b }) =
-      (F.filter (fun s => s.repl.isSome)).map (·.mnt) := by
-  unfold Result.heldBefore
+/-- mounts on which a slot list shows a replica -/
+def heldOf (l : List Slot) : List Mount := (l.filter (fun s => s.repl.isSome)).map (·.mnt)
+
+theorem mem_heldOf {l : List Slot} {m : Mount} : m ∈ heldOf l ↔ ∃ s ∈ l, s.mnt = m ∧ s.repl.isSome = true := by
+  unfold heldOf
+  simp only [List.mem_map, List.mem_filter]
+  constructor
+  · rintro ⟨s, ⟨hs, hr⟩, rfl⟩; exact ⟨s, hs, rfl, hr⟩
+  · rintro ⟨s, hs, rfl, hr⟩; exact ⟨s, ⟨hs, hr⟩, rfl⟩
+
+theorem heldOf_coreRel {l l' : List Slot} (h : CoreRel l l') (m : Mount) : m ∈ heldOf l ↔ m ∈ heldOf l' := by
+  rw [mem_heldOf, mem_heldOf]
+  constructor
+  · rintro ⟨s, hs, e1, e2⟩
+    obtain ⟨s', hs', f1, f2⟩ := mem_of_coreRel h hs
+    exact ⟨s', hs', f1.trans e1, by rw [f2]; exact e2⟩
+  · rintro ⟨s, hs, e1, e2⟩
+    obtain ⟨s', hs', f1, f2⟩ := mem_of_coreRel h.symm hs
+    exact ⟨s', hs', f1.trans e1, by rw [f2]; exact e2⟩
+
+theorem heldBefore_eq (F : List Slot) (b : BState) (lf : Bool) :
+    (Result.heldBefore { changes := F.map (fun s => (s, change env reps s)), final := b, lost := lf }) = heldOf F := by
+  unfold Result.heldBefore heldOf
   simp only [List.filter_map, List.map_map]
   rfl
 
-theorem trashedMounts_mem (F : List Slot) (b : BState) (m : Mount) :
-    m ∈ (Result.trashedMounts { changes := F.map (fun s => (s, change env reps s)), final := b }) ↔
+theorem trashedMounts_mem (F : List Slot) (b : BState) (lf : Bool) (m : Mount) :
+    m ∈ (Result.trashedMounts { changes := F.map (fun s => (s, change env reps s)), final := b, lost := lf }) ↔
       ∃ s ∈ F, (change env reps s).isTrash = true ∧ s.mnt = m := by
   unfold Result.trashedMounts
   simp only [List.mem_map, List.mem_filter]
@@ -269,159 +45,267 @@ theorem trashedMounts_mem (F : List Slot) (b : BState) (m : Mount) :
   · rintro ⟨s, hs, ht, rfl⟩
     exact ⟨(s, change env reps s), ⟨⟨s, hs, rfl⟩, ht⟩, rfl⟩
 
-/-- with pairwise-apart mounts, a mount is hit by the trash list iff its own slot is trashed -/
-theorem trashed_any_iff (F : List Slot) (b : BState) (hap : (F.map (·.mnt)).Pairwise DevApart) (s : Slot) (hs : s ∈ F) :
-    (Result.trashedMounts { changes := F.map (fun s => (s, change env reps s)), final := b }).any (sameDevice s.mnt) =
-      (change env reps s).isTrash := by
-  cases ht : (change env reps s).isTrash
-  · rw [List.any_eq_false]
-    intro m hm hsd
-    obtain ⟨s', hs', ht', rfl⟩ := (trashedMounts_mem env reps F b m).1 hm
-    have : s = s' := eq_of_pairwise_map (fun (x : Slot) => x.mnt) DevApart F hap s hs s' hs'
-      (sameDevice_not_apart hsd) (sameDevice_not_apart' hsd)
-    rw [this, ht'] at ht; cases ht
-  · rw [List.any_eq_true]
-    exact ⟨s.mnt, (trashedMounts_mem env reps F b s.mnt).2 ⟨s, hs, ht, rfl⟩, sameDevice_self _⟩
-
-theorem heldAfter_eq (F : List Slot) (b : BState) (hap : (F.map (·.mnt)).Pairwise DevApart) :
-    (Result.heldAfter { changes := F.map (fun s => (s, change env reps s)), final := b }) =
-      (F.filter (fun s => s.repl.isSome && !(change env reps s).isTrash)).map (·.mnt) := by
+theorem mem_heldAfter (F : List Slot) (b : BState) (lf : Bool) (m : Mount) :
+    m ∈ (Result.heldAfter { changes := F.map (fun s => (s, change env reps s)), final := b, lost := lf }) ↔
+      m ∈ heldOf F ∧ ∀ s ∈ F, (change env reps s).isTrash = true → devKey m ≠ devKey s.mnt := by
   unfold Result.heldAfter
-  rw [heldBefore_eq]
-  rw [List.filter_map, List.filter_filter]
-  congr 1
-  apply List.filter_congr
-  intro s hs
-  simp only [Function.comp]
-  rw [trashed_any_iff env reps F b hap s hs]
-  cases s.repl.isSome <;> cases (change env reps s).isTrash <;> rfl
+  rw [List.mem_filter, heldBefore_eq]
+  constructor
+  · rintro ⟨h1, h2⟩
+    refine ⟨h1, fun s hs ht hk => ?_⟩
+    have : (Result.trashedMounts { changes := F.map (fun s => (s, change env reps s)), final := b, lost := lf }).any
+        (sameDevice m) = true := by
+      rw [List.any_eq_true]
+      exact ⟨s.mnt, (trashedMounts_mem env reps F b lf s.mnt).2 ⟨s, hs, ht, rfl⟩, (sameDevice_iff _ _).2 hk⟩
+    rw [this] at h2; cases h2
+  · rintro ⟨h1, h2⟩
+    refine ⟨h1, ?_⟩
+    rw [Bool.not_eq_true', List.any_eq_false]
+    intro m' hm' hsd
+    obtain ⟨s, hs, ht, rfl⟩ := (trashedMounts_mem env reps F b lf m').1 hm'
+    exact h2 s hs ht ((sameDevice_iff _ _).1 hsd)
 
-theorem physRepl_before (c : Class) (F : List Slot) (b : BState) (hap : (F.map (·.mnt)).Pairwise DevApart) :
-    physRepl c (Result.heldBefore { changes := F.map (fun s => (s, change env reps s)), final := b }) =
-      ssum (haveTerm c) F := by
-  rw [heldBefore_eq]
-  unfold physRepl
-  rw [distinctDevices_of_apart _ (hap.sublist ((List.filter_sublist).map _))]
-  rw [sum_filter_map_eq_ssum]
-  rfl
-
-theorem physRepl_after (c : Class) (F : List Slot) (b : BState) (hap : (F.map (·.mnt)).Pairwise DevApart) :
-    physRepl c (Result.heldAfter { changes := F.map (fun s => (s, change env reps s)), final := b }) =
-      ssum (keptTerm env reps c) F := by
-  rw [heldAfter_eq env reps F b hap]
-  unfold physRepl
-  rw [distinctDevices_of_apart _ (hap.sublist ((List.filter_sublist).map _))]
-  rw [sum_filter_map_eq_ssum]
-  rfl
+theorem isTrash_want {s : Slot} (h : (change env reps s).isTrash = true) : s.want = false ∧ s.repl.isSome = true := by
+  cases hc : change env reps s with
+  | trash t =>
+    have := change_trash hc
+    exact ⟨this.2.1, by rw [this.1]; rfl⟩
+  | lost => rw [hc] at h; cases h
+  | pull src => rw [hc] at h; cases h
+  | stay => rw [hc] at h; cases h
+  | none => rw [hc] at h; cases h
 
 end
 
-/-- a replica whose mtime is in unsafeToDelete is not trashed -/
-theorem protTerm_le_kept (env : Env) (reps : List Replica) (c : Class) (b : BState) :
-    ∀ s ∈ finalWant b, protTerm c b.utd s ≤ keptTerm env reps c s := by
-  intro s hs
-  unfold finalWant at hs
-  obtain ⟨s0, _, rfl⟩ := List.mem_map.1 hs
-  cases hr : (finalSlot b s0).repl with
-  | none => rw [protTerm_none c _ _ hr]; exact Nat.zero_le _
-  | some t =>
-    rw [protTerm_some c _ _ t hr]
-    cases hc : inClass c (finalSlot b s0).mnt
-    · simp
-    · cases hu : b.utd.contains t
-      · simp
-      · -- want is set, hence no trash
-        have hw : (finalSlot b s0).want = true := by
-          have hr0 : s0.repl = some t := by simpa using hr
-          unfold finalSlot
-          rw [hr0]
-          simp only [hu, Bool.or_true, if_true]
-        have hnt : (change env reps (finalSlot b s0)).isTrash = false := by
-          cases hch : change env reps (finalSlot b s0) with
-          | trash t' =>
-            have := (change_trash hch).2.1
-            rw [hw] at this; cases this
-          | _ => rfl
-        have h1 : (finalSlot b s0).repl.isSome = true := by rw [hr]; rfl
-        unfold keptTerm
-        rw [h1, hnt, hc]
-        simp
+/-- at the very end a replica whose mtime is unsafe to delete is wanted -/
+theorem kept_final (b : BState) : ∀ s ∈ finalWant b, Kept b.utd s → ∀ t, s.repl = some t → s.want = true := by
+  intro s hs hk t ht
+  rcases hk t ht with h | h
+  · exact h
+  · unfold finalWant at hs
+    obtain ⟨s0, _, rfl⟩ := List.mem_map.1 hs
+    have hr0 : s0.repl = some t := by simpa using ht
+    unfold finalSlot
+    rw [hr0]
+    have : b.utd.contains t = true := List.contains_iff_mem.2 h
+    simp only [this, Bool.or_true, if_true]
 
-/-- The central accounting step. -/
-theorem safe_of_prot (env : Env) (reps : List Replica) (c : Class) (b : BState)
-    (hp : Prot env c b.utd b.slots) :
-    min (env.desired c) (ssum (haveTerm c) (finalWant b)) ≤ ssum (keptTerm env reps c) (finalWant b) := by
-  have hrel := (coreRel_finalWant b).symm
-  have hp' : Prot env c b.utd (finalWant b) := Prot.transport hp (fun _ h => h) hrel
-  have hle : ssum (protTerm c b.utd) (finalWant b) ≤ ssum (keptTerm env reps c) (finalWant b) :=
-    ssum_le _ _ _ (protTerm_le_kept env reps c b)
-  rcases hp' with h | h
-  · have := Nat.min_le_left (env.desired c) (ssum (haveTerm c) (finalWant b))
-    omega
-  · have e : ssum (protTerm c b.utd) (finalWant b) = ssum (haveTerm c) (finalWant b) :=
-      ssum_congr _ _ _ (protTerm_of_allProt c b.utd _ h)
-    have := Nat.min_le_right (env.desired c) (ssum (haveTerm c) (finalWant b))
-    omega
-
-theorem initSlots_mnt (mounts : List Mount) (reps : List Replica) :
-    (initSlots mounts reps).map (·.mnt) = mounts := by
-  induction mounts with
-  | nil => rfl
-  | cons m l ih =>
-    unfold initSlots at ih ⊢
-    simp only [List.map_cons, List.map_map] at ih ⊢
-    rw [ih]
-
-/-- from the protection guarantee at the end of the class loop to the physical statement -/
-theorem trash_safe_of_prot (env : Env) (classes : List Class) (sorter : Class → List Slot → List Slot)
+/-- The central accounting step: a class guarantee at the end of the loop gives the physical
+statement for the result. -/
+theorem trash_safe_of_guar (env : Env) (classes : List Class) (sorter : Class → List Slot → List Slot)
     (mounts : List Mount) (reps : List Replica)
-    (hok : BalanceOK env classes sorter mounts reps) (hap : mounts.Pairwise DevApart) (c : Class)
-    (hprot : Prot env c (balanceBlock env classes sorter mounts reps).final.utd
+    (hok : BalanceOK env classes sorter mounts reps) (hid : DistinctIds mounts) (hcons : DeviceConsistent mounts)
+    (c : Class)
+    (hg : Guar c (env.desired c) (balanceBlock env classes sorter mounts reps).final.utd
       (balanceBlock env classes sorter mounts reps).final.slots) :
     min (env.desired c) (physRepl c (balanceBlock env classes sorter mounts reps).heldBefore) ≤
       physRepl c (balanceBlock env classes sorter mounts reps).heldAfter := by
   unfold BalanceOK at hok
-  have hap0 : ((initSlots mounts reps).map (·.mnt)).Pairwise DevApart := by rw [initSlots_mnt]; exact hap
-  have hrel := runClasses_coreRel env sorter classes _ hok
-  show min (env.desired c) (physRepl c (Result.heldBefore
-      { changes := (finalWant _).map (fun s => (s, change env reps s)), final := _ })) ≤
-    physRepl c (Result.heldAfter { changes := (finalWant _).map (fun s => (s, change env reps s)), final := _ })
-  have hapF : ((finalWant (runClasses env sorter classes
-      { slots := initSlots mounts reps, utd := [], underrep := false })).map (·.mnt)).Pairwise DevApart :=
-    devApart_pairwise_of_perm (coreRel_mnt_perm ((coreRel_finalWant _).trans hrel)) hap0
-  rw [physRepl_before env reps c _ _ hapF, physRepl_after env reps c _ _ hapF]
-  exact safe_of_prot env reps c _ hprot
+  generalize hb : (balanceBlock env classes sorter mounts reps).final = b at hg
+  have hbdef : b = runClasses env sorter classes { slots := initSlots mounts reps, utd := [], underrep := false } := by
+    rw [← hb]; rfl
+  have hres : balanceBlock env classes sorter mounts reps =
+      { changes := (finalWant b).map (fun s => (s, change env reps s)), final := b,
+        lost := lostFlag env classes reps ((finalWant b).map (fun s => (s, change env reps s))) } := by
+    rw [hbdef]; rfl
+  rw [hres]
+  generalize lostFlag env classes reps ((finalWant b).map (fun s => (s, change env reps s))) = lf
+  -- the guarantee on the final slot list
+  have hgF : Guar c (env.desired c) b.utd (finalWant b) := hg.transport (fun _ h => h) (evolves_finalWant b)
+  -- mounts of the final list are mounts of the layout
+  have hrelF : CoreRel (finalWant b) (initSlots mounts reps) := by
+    rw [hbdef]; exact (coreRel_finalWant _).trans (runClasses_coreRel env sorter classes _ hok)
+  have hmemF : ∀ s ∈ finalWant b, s.mnt ∈ mounts := by
+    intro s hs
+    have : s.mnt ∈ (finalWant b).map (·.mnt) := List.mem_map.2 ⟨s, hs, rfl⟩
+    have := (coreRel_mnt_perm hrelF).mem_iff.1 this
+    rwa [initSlots_mnt] at this
+  have hkc : KeyConsistent c mounts := keyConsistent_of c hid hcons
+  rcases hgF with ⟨Cm, hnd, hsum, hC⟩ | hall
+  · -- the counted devices survive
+    have hsub : ∀ m ∈ Cm, m ∈ (Result.heldAfter
+        { changes := (finalWant b).map (fun s => (s, change env reps s)), final := b, lost := lf }) ∧
+        inClass c m = true := by
+      intro m hm
+      obtain ⟨a1, ⟨s, hs, e1, e2⟩, a3⟩ := hC m hm
+      refine ⟨(mem_heldAfter env reps _ b lf m).2 ⟨mem_heldOf.2 ⟨s, hs, e1, e2⟩, ?_⟩, a1⟩
+      intro s' hs' ht hk
+      have hw := isTrash_want env reps ht
+      cases hr : s'.repl with
+      | none => rw [hr] at hw; cases hw.2
+      | some t =>
+        have := kept_final b s' hs' (a3 s' hs' hk.symm) t hr
+        rw [hw.1] at this; cases this
+    have hkc' : KeyConsistent c (Result.heldAfter
+        { changes := (finalWant b).map (fun s => (s, change env reps s)), final := b, lost := lf }) := by
+      apply hkc.sub
+      intro m hm
+      obtain ⟨s, hs, e1, _⟩ := mem_heldOf.1 ((mem_heldAfter env reps _ b lf m).1 hm).1
+      rw [← e1]; exact hmemF s hs
+    have := physRepl_ge c _ hkc' Cm hsub hnd
+    have h2 := Nat.min_le_left (env.desired c) (physRepl c (Result.heldBefore
+      { changes := (finalWant b).map (fun s => (s, change env reps s)), final := b, lost := lf }))
+    omega
+  · -- nothing is trashed at all
+    have hno : ∀ s ∈ finalWant b, (change env reps s).isTrash = false := by
+      intro s hs
+      cases ht : (change env reps s).isTrash with
+      | false => rfl
+      | true =>
+        have hw := isTrash_want env reps ht
+        cases hr : s.repl with
+        | none => rw [hr] at hw; cases hw.2
+        | some t =>
+          have := kept_final b s hs (hall s hs) t hr
+          rw [hw.1] at this; cases this
+    have heq : ∀ m, m ∈ (Result.heldBefore
+          { changes := (finalWant b).map (fun s => (s, change env reps s)), final := b, lost := lf }) ↔
+        m ∈ (Result.heldAfter
+          { changes := (finalWant b).map (fun s => (s, change env reps s)), final := b, lost := lf }) := by
+      intro m
+      rw [heldBefore_eq, mem_heldAfter]
+      constructor
+      · intro h
+        exact ⟨h, fun s hs ht => by rw [hno s hs] at ht; cases ht⟩
+      · intro h; exact h.1
+    have hkc' : KeyConsistent c (Result.heldBefore
+        { changes := (finalWant b).map (fun s => (s, change env reps s)), final := b, lost := lf }) := by
+      apply hkc.sub
+      intro m hm
+      rw [heldBefore_eq] at hm
+      obtain ⟨s, hs, e1, _⟩ := mem_heldOf.1 hm
+      rw [← e1]; exact hmemF s hs
+    rw [← physRepl_congr c _ _ hkc' heq]
+    exact Nat.min_le_right _ _
 
-/-- one mount per server and no shared device -/
-theorem trash_safe_of_apart (env : Env) (classes : List Class) (sorter : Class → List Slot → List Slot)
-    (mounts : List Mount) (reps : List Replica)
-    (hok : BalanceOK env classes sorter mounts reps) (hap : mounts.Pairwise Apart)
-    (c : Class) (hc : c ∈ classes) (hd : env.desired c ≠ 0) :
-    min (env.desired c) (physRepl c (balanceBlock env classes sorter mounts reps).heldBefore) ≤
-      physRepl c (balanceBlock env classes sorter mounts reps).heldAfter := by
-  apply trash_safe_of_prot env classes sorter mounts reps hok (hap.imp Apart.toDev) c
-  have hap0 : ((initSlots mounts reps).map (·.mnt)).Pairwise Apart := by rw [initSlots_mnt]; exact hap
-  exact runClasses_prot env sorter c classes _ hok hap0 hc hd
+/-! ### the under-replication test counts physical devices -/
 
-/-- no shared device and every replica on a mount of the class (any number of mounts per server) -/
-theorem trash_safe_of_inclass (env : Env) (classes : List Class) (sorter : Class → List Slot → List Slot)
+theorem countedSafe_sub (c : Class) : ∀ (l : List Slot) (seen : List Dev), ∀ k ∈ countedSafe c l seen,
+    (∃ s ∈ l, s.mnt = k ∧ s.repl.isSome = true) ∧ inClass c k = true ∧ seen.contains k.dev = false := by
+  intro l
+  induction l with
+  | nil => intro seen k hk; cases hk
+  | cons s l ih =>
+    intro seen k hk
+    unfold countedSafe at hk
+    by_cases h : (s.repl.isNone || !inClass c s.mnt || seen.contains s.mnt.dev) = true
+    · rw [if_pos h] at hk
+      obtain ⟨⟨s', hs', e⟩, a2, a3⟩ := ih seen k hk
+      exact ⟨⟨s', List.mem_cons_of_mem _ hs', e⟩, a2, a3⟩
+    · rw [if_neg h] at hk
+      have h' := Bool.eq_false_iff.mpr h
+      simp only [Bool.or_eq_false_iff, Bool.not_eq_false'] at h'
+      rcases List.mem_cons.1 hk with rfl | hk'
+      · refine ⟨⟨s, List.mem_cons_self .., rfl, ?_⟩, h'.1.2, h'.2⟩
+        cases hr : s.repl with
+        | none => rw [hr] at h'; simp at h'
+        | some t => rfl
+      · obtain ⟨⟨s', hs', e⟩, a2, a3⟩ := ih _ k hk'
+        refine ⟨⟨s', List.mem_cons_of_mem _ hs', e⟩, a2, ?_⟩
+        cases hc : seen.contains k.dev with
+        | false => rfl
+        | true =>
+          have : (if s.mnt.dev != 0 then s.mnt.dev :: seen else seen).contains k.dev = true := by
+            split
+            · exact contains_cons_of _ hc
+            · exact hc
+          rw [this] at a3; cases a3
+
+theorem countedSafe_nodup (c : Class) : ∀ (l : List Slot) (seen : List Dev), IdsDistinct l →
+    ((countedSafe c l seen).map devKey).Nodup := by
+  intro l
+  induction l with
+  | nil => intro _ _; exact List.nodup_nil
+  | cons s l ih =>
+    intro seen hid
+    have hid' := List.pairwise_cons.1 (show (s.mnt :: l.map (·.mnt)).Pairwise (fun a b => a.id ≠ b.id) from hid)
+    unfold countedSafe
+    by_cases h : (s.repl.isNone || !inClass c s.mnt || seen.contains s.mnt.dev) = true
+    · rw [if_pos h]; exact ih seen hid'.2
+    · rw [if_neg h]
+      simp only [List.map_cons]
+      refine List.nodup_cons.2 ⟨?_, ih _ hid'.2⟩
+      intro hmem
+      obtain ⟨k, hk, hkey⟩ := List.mem_map.1 hmem
+      obtain ⟨⟨s', hs', e, _⟩, _, a3⟩ := countedSafe_sub c l _ k hk
+      rcases (devKey_eq_iff k s.mnt).1 hkey with ⟨_, _, hidd⟩ | ⟨h0, hd⟩
+      · exact hid'.1 s'.mnt (List.mem_map.2 ⟨s', hs', rfl⟩) (by rw [e]; exact hidd.symm)
+      · have hne : (s.mnt.dev != 0) = true := by rw [← hd]; simpa using h0
+        rw [if_pos hne, hd, contains_cons_self'] at a3
+        cases a3
+
+theorem countedSafe_cover (c : Class) : ∀ (l : List Slot) (seen : List Dev), ∀ s ∈ l,
+    s.repl.isSome = true → inClass c s.mnt = true →
+    seen.contains s.mnt.dev = true ∨ ∃ k ∈ countedSafe c l seen, devKey k = devKey s.mnt := by
+  intro l
+  induction l with
+  | nil => intro _ s hs; cases hs
+  | cons s0 l ih =>
+    intro seen s hs hr hin
+    unfold countedSafe
+    by_cases h : (s0.repl.isNone || !inClass c s0.mnt || seen.contains s0.mnt.dev) = true
+    · rw [if_pos h]
+      rcases List.mem_cons.1 hs with rfl | hs'
+      · left
+        cases hrr : s.repl with
+        | none => rw [hrr] at hr; cases hr
+        | some t =>
+          rw [hrr, hin] at h
+          simpa using h
+      · exact ih seen s hs' hr hin
+    · rw [if_neg h]
+      rcases List.mem_cons.1 hs with rfl | hs'
+      · right; exact ⟨s.mnt, List.mem_cons_self .., rfl⟩
+      · rcases ih (if s0.mnt.dev != 0 then s0.mnt.dev :: seen else seen) s hs' hr hin with h1 | ⟨k, hk, hkey⟩
+        · by_cases hne : (s0.mnt.dev != 0) = true
+          · rw [if_pos hne, List.contains_cons, Bool.or_eq_true] at h1
+            rcases h1 with h1 | h1
+            · right
+              refine ⟨s0.mnt, List.mem_cons_self .., ?_⟩
+              have e : s.mnt.dev = s0.mnt.dev := by simpa using h1
+              have h0 : s0.mnt.dev ≠ 0 := by simpa using hne
+              rw [devKey_named h0, devKey_named (by rw [e]; exact h0), e]
+            · left; exact h1
+          · rw [if_neg hne] at h1; left; exact h1
+        · right; exact ⟨k, List.mem_cons_of_mem _ hk, hkey⟩
+
+/-- what the `safe` loop sums is the physical replication of the class -/
+theorem countedSafe_sum (c : Class) (l : List Slot) (hid : IdsDistinct l) (hkc : KeyConsistent c (heldOf l)) :
+    ((countedSafe c l []).map (·.repl)).sum = physRepl c (heldOf l) := by
+  have hsub : ∀ k ∈ countedSafe c l [], k ∈ heldOf l ∧ inClass c k = true := by
+    intro k hk
+    obtain ⟨⟨s, hs, e1, e2⟩, a2, _⟩ := countedSafe_sub c l [] k hk
+    exact ⟨mem_heldOf.2 ⟨s, hs, e1, e2⟩, a2⟩
+  apply Nat.le_antisymm
+  · exact physRepl_ge c _ hkc _ hsub (countedSafe_nodup c l [] hid)
+  · apply physRepl_le c _ hkc _ (fun k hk => (hsub k hk).1)
+    intro m hm hin
+    obtain ⟨s, hs, e1, e2⟩ := mem_heldOf.1 hm
+    rcases countedSafe_cover c l [] s hs e2 (by rw [e1]; exact hin) with h | ⟨k, hk, hkey⟩
+    · simp at h
+    · exact ⟨k, hk, by rw [hkey, e1]⟩
+
+/-- if the physical replication of some class of the loop is below desired, the flag is set -/
+theorem underrep_of_phys (env : Env) (classes : List Class) (sorter : Class → List Slot → List Slot)
     (mounts : List Mount) (reps : List Replica)
-    (hok : BalanceOK env classes sorter mounts reps) (hap : mounts.Pairwise DevApart)
+    (hok : BalanceOK env classes sorter mounts reps) (hid : DistinctIds mounts) (hcons : DeviceConsistent mounts)
     (c : Class) (hc : c ∈ classes) (hd : env.desired c ≠ 0)
-    (hall : ∀ m ∈ mounts, (replicaOn reps m.id).isSome = true → inClass c m = true) :
-    min (env.desired c) (physRepl c (balanceBlock env classes sorter mounts reps).heldBefore) ≤
-      physRepl c (balanceBlock env classes sorter mounts reps).heldAfter := by
-  apply trash_safe_of_prot env classes sorter mounts reps hok hap c
-  have hmnt := initSlots_mnt mounts reps
-  apply runClasses_prot_inclass env sorter c classes _ hok
-  · show ((initSlots mounts reps).map (·.mnt)).Pairwise (fun a b => a.id ≠ b.id)
-    rw [hmnt]; exact hap.imp (fun h => h.1)
-  · show ((initSlots mounts reps).map (·.mnt)).Pairwise (fun a b => a.dev = b.dev → a.dev = 0)
-    rw [hmnt]; exact hap.imp (fun h => h.2)
-  · intro s hs hr
-    have := mem_initSlots hs
-    exact hall s.mnt this.1 (by rw [← this.2.1]; exact hr)
-  · exact hc
-  · exact hd
+    (hu : physRepl c (heldOf (initSlots mounts reps)) < env.desired c) :
+    (balanceBlock env classes sorter mounts reps).final.underrep = true := by
+  unfold BalanceOK at hok
+  apply runClasses_underrep env sorter c classes _ hok hc hd
+  intro l hl
+  have hmnt : (l.map (·.mnt)).Perm mounts := by
+    have := coreRel_mnt_perm hl
+    rwa [initSlots_mnt] at this
+  have hidl : IdsDistinct l := distinctIds_of_perm hmnt hid
+  have hkc : KeyConsistent c (heldOf l) := by
+    apply (keyConsistent_of c hid hcons).sub
+    intro m hm
+    obtain ⟨s, hs, e1, _⟩ := mem_heldOf.1 hm
+    exact hmnt.mem_iff.1 (List.mem_map.2 ⟨s, hs, e1⟩)
+  rw [safeCount_lt, Nat.zero_add, countedSafe_sum c l hidl hkc,
+    physRepl_congr c (heldOf l) (heldOf (initSlots mounts reps)) hkc (heldOf_coreRel hl)]
+  exact hu
 
 end ArvVerif.C05
